@@ -18,11 +18,12 @@ def posCount (n : Nat) (p : List Rat) : Nat := ((p.take n).filter (fun x => deci
 
 /-- what numpy guarantees about the draws (for every generator state): sampling WITHOUT replacement returns `size` distinct indices
 below `n`, each of positive probability — when at least `size` probabilities are positive (numpy raises otherwise); sampling WITH
-replacement returns `size` indices below `n` of positive probability; `shuffle` permutes -/
+replacement returns `size` values, which are indices below `n` of positive probability when some probability is positive (numpy raises
+otherwise; the contract functions are total, as everywhere in the model); `shuffle` permutes -/
 structure RngOK {G : Type} (cr cnr : G → Nat → Nat → List Rat → List Nat × G) (sh : G → List Nat → List Nat × G) : Prop where
   noreplace : ∀ g n k p, k ≤ posCount n p →
     (cnr g n k p).1.length = k ∧ (cnr g n k p).1.Nodup ∧ ∀ i ∈ (cnr g n k p).1, i < n ∧ 0 < p.getD i 0
-  replace : ∀ g n k p, (cr g n k p).1.length = k ∧ ∀ i ∈ (cr g n k p).1, i < n ∧ 0 < p.getD i 0
+  replace : ∀ g n k p, (cr g n k p).1.length = k ∧ (0 < posCount n p → ∀ i ∈ (cr g n k p).1, i < n ∧ 0 < p.getD i 0)
   shuffle : ∀ g l, ((sh g l).1).Perm l
 
 /-! ### the numpy contracts against the model's arithmetic -/
@@ -223,6 +224,27 @@ theorem hist_of_perm (counts : List Rat) (total : Nat) (pick : List Nat) (r : Li
 end round
 
 /-! ### the sampling branch -/
+
+/-- positive mass and nonnegative entries: some normalised probability is positive -/
+theorem posCount_probas {counts : List Rat} (h : CountsOK counts) :
+    0 < posCount counts.length (counts.map (fun v => v / sumQ counts)) := by
+  unfold posCount
+  rw [List.take_of_length_le (by simp), List.filter_map, List.length_map, List.length_pos_iff]
+  intro he
+  have hall : ∀ c ∈ counts, c = 0 := by
+    intro c hc
+    have hn : ¬ (0 < c / sumQ counts) := by
+      intro hp
+      have : c ∈ counts.filter ((fun x => decide (0 < x)) ∘ fun v => v / sumQ counts) :=
+        List.mem_filter.2 ⟨hc, by simpa using hp⟩
+      rw [he] at this
+      cases this
+    have h1 : ¬ (0 < c) := fun hc' => hn (div_pos hc' h.pos)
+    exact le_antisymm (not_lt.1 h1) (h.nonneg c hc)
+  have : sumQ counts = 0 := by
+    rw [Aux.sumQ_eq_sum]
+    exact List.sum_eq_zero hall
+  exact absurd h.pos (by rw [this]; exact lt_irrefl _)
 
 theorem syntheticCol_sample {G : Type} (cr cnr : G → Nat → Nat → List Rat → List Nat × G) (sh : G → List Nat → List Nat × G)
     (counts : List Rat) (total : Nat) (g : G) :
